@@ -403,7 +403,7 @@ def extra(check, ci, cm, cases):
     # (b) depth-first sweeps of all sequences, compared by digest
     starts = start_states()
     if tier == 'thorough':
-        plan = [(st, 6, ALPHA) for st in starts] + [(st, 7, ALPHA) for st in starts[::6]] + \
+        plan = [(st, 6, ALPHA) for st in starts] + [(st, 7, ALPHA) for st in starts[::3]] + \
                [(st, 5, ALPHA_BIG) for st in starts[::3]]
     else:
         plan = [(st, 5, ALPHA) for st in starts] + [(st, 6, ALPHA) for st in starts[1::3]]
